@@ -5,16 +5,16 @@
    non-dominated sorter is assumed to return; decided in Coq on the implementation's fronts in
    every correspondence case). *)
 From Coq Require Import List ZArith QArith Bool.
-From DV Require Import Base.PyList Model.C05_Nsga2 Model.C05_Spec Model.C05_CrowdSpec
+From DV Require Import Base.PyList Model.C05_Nsga2 Model.C05_Spec Model.C05_CrowdSpec Model.C05_SortStd
      Proofs.C05_Spec Proofs.C05_Nsga2 Proofs.C05_QInst Proofs.C05_Crowding
-     Proofs.C05_CutFront Proofs.C05_Depth Proofs.C05_Extremes Proofs.C05_FloatOrd Proofs.C05_All.
+     Proofs.C05_CutFront Proofs.C05_Depth Proofs.C05_Extremes Proofs.C05_FloatOrd Proofs.C05_All Proofs.C05_Final.
 Import ListNotations.
 Local Open Scope nat_scope.
 
 (* selNSGA2 does not fail (pareto_fronts[-1] exists whenever it is read) *)
 Theorem C05_nsga2_defined : forall o (pop : list (ind (V o))) k fronts,
   fronts_correct pop k fronts -> exists r, sel_nsga2 o fronts k = Some r.
-Proof. intros o pop k fronts. exact (sel_defined_aux o pop fronts k). Qed.
+Proof. exact nsga2_defined. Qed.
 Print Assumptions C05_nsga2_defined.
 
 (* exactly min(k, n) individuals *)
@@ -28,7 +28,7 @@ Print Assumptions C05_nsga2_size.
 Theorem C05_nsga2_refs_nodup : forall o (pop : list (ind (V o))) k fronts r,
   wf_pop pop -> fronts_correct pop k fronts -> sel_nsga2 o fronts k = Some r ->
   (forall x, In x r -> In x pop) /\ NoDup (uids r).
-Proof. intros o pop k fronts r W F S. split; [exact (refs o pop k fronts r F S)|exact (nodup o pop k fronts r W F S)]. Qed.
+Proof. exact refs_nodup. Qed.
 Print Assumptions C05_nsga2_refs_nodup.
 
 (* no individual left out belongs to a strictly better front than a selected one *)
@@ -72,12 +72,7 @@ Theorem C05_nsga2_crowding_cut : forall (pop : list (ind Q)) k fronts r,
     In (x, dx) (combine lastf (assign_crowding q_ops lastf)) ->
     In (y, dy) (combine lastf (assign_crowding q_ops lastf)) ->
     In (uid x) (uids r) -> ~ In (uid y) (uids r) -> qinf_ge dx dy.
-Proof.
-  intros pop k fronts r W F S lastf E x dx y dy Ix Iy Sx Ny. apply qinf_ltb_ge.
-  apply (crowding_cut q_ops pop k fronts r W F S (fun _ => True)
-           (fun a b _ _ => qinf_ltb_asym a b) (fun a b c _ _ _ => qinf_ltb_ntrans a b c)
-           lastf E (proj2 (Forall_forall _ _) (fun _ _ => I)) x dx y dy Ix Iy Sx Ny).
-Qed.
+Proof. exact crowding_cut_q. Qed.
 Print Assumptions C05_nsga2_crowding_cut.
 
 (* the IEEE-float instance (the one compared bit for bit with CPython): same statement, provided
@@ -90,10 +85,7 @@ Theorem C05_nsga2_crowding_cut_float : forall (pop : list (ind PrimFloat.float))
     In (x, dx) (combine lastf (assign_crowding f_ops lastf)) ->
     In (y, dy) (combine lastf (assign_crowding f_ops lastf)) ->
     In (uid x) (uids r) -> ~ In (uid y) (uids r) -> PrimFloat.ltb dx dy = false.
-Proof.
-  intros pop k fronts r W F S lastf E NN x dx y dy Ix Iy Sx Ny.
-  exact (crowding_cut f_ops pop k fronts r W F S not_nan fltb_asym fltb_ntrans lastf E NN x dx y dy Ix Iy Sx Ny).
-Qed.
+Proof. exact crowding_cut_float. Qed.
 Print Assumptions C05_nsga2_crowding_cut_float.
 
 (* k >= n: the whole population comes back (docstring: "no effect other than sorting the
@@ -124,7 +116,7 @@ Theorem C05_depth_is_dominance_depth : forall (A : Type) (pop : list (ind A)), w
   (forall x y, In x pop -> In y pop -> dom (wv y) (wv x) = true -> depth pop y < depth pop x) /\
   (forall x d, In x pop -> depth pop x = S d ->
      exists y, In y pop /\ dom (wv y) (wv x) = true /\ depth pop y = d).
-Proof. intros A pop. exact (depth_is_dominance_depth pop). Qed.
+Proof. exact depth_dominance. Qed.
 Print Assumptions C05_depth_is_dominance_depth.
 
 Theorem C05_dom_spec : forall a b : list Z, dom a b = true <->
@@ -157,10 +149,7 @@ Print Assumptions C05_crowding_formula.
 (* the list minimum / maximum used by crowd_spec are what their names say *)
 Theorem C05_lmin_lmax_spec : forall l : list Q, l <> [] ->
   In (lmin l) l /\ In (lmax l) l /\ forall w, In w l -> (lmin l <= w)%Q /\ (w <= lmax l)%Q.
-Proof.
-  intros l N. split; [apply lmin_in, N|split; [apply lmax_in, N|]].
-  intros w I. split; [apply lmin_le, I|apply lmax_ge, I].
-Qed.
+Proof. exact lmin_lmax_spec. Qed.
 Print Assumptions C05_lmin_lmax_spec.
 
 (* one distance per individual *)
@@ -174,17 +163,14 @@ Print Assumptions C05_crowding_length.
 Theorem C05_fronts_correct_decided : forall (A : Type) (pop : list (ind A)) k fu,
   wf_pop_b pop = true -> fronts_correct_b pop k fu = true ->
   wf_pop pop /\ fronts_correct pop k (map (select pop) fu).
-Proof.
-  intros A pop k fu W F. pose proof (wf_pop_b_sound pop W) as W'.
-  split; [exact W'|exact (fronts_correct_b_sound pop k fu W' F)].
-Qed.
+Proof. exact fronts_correct_decided. Qed.
 Print Assumptions C05_fronts_correct_decided.
 
 (* the peeling layers partition the population (every individual has a depth) *)
 Theorem C05_layers_partition : forall (A : Type) (pop : list (ind A)),
   Permutation.Permutation (concat (layers pop)) pop /\
   (wf_pop pop -> forall x, In x pop -> depth pop x < length (layers pop)).
-Proof. intros A pop. split; [apply layers_perm|intros W x; apply depth_lt, W]. Qed.
+Proof. exact layers_partition. Qed.
 Print Assumptions C05_layers_partition.
 
 (* non-vacuity: a population, the fronts a correct sorter returns for k = 2, and the selection *)
@@ -195,6 +181,15 @@ Example C05_nonvacuous :
   fronts_correct_b ex_pop 4 [[0; 1; 2]; [3]] = true /\
   option_map uids (sel_nsga2 q_ops (map (select ex_pop) [[2; 0; 1]]) 2) = Some [2; 0] /\
   assign_crowding q_ops (select ex_pop [2; 0; 1]) = [Inf; Inf; Fin 1].
+Proof. vm_compute. repeat split. Qed.
+
+(* end to end for nd='standard' on the same population: the transcribed sorter's fronts satisfy the
+   hypothesis, and the selection follows *)
+Example C05_std_end_to_end :
+  option_map (map uids) (sort_nd ex_pop 2) = Some [[0; 1; 2]] /\
+  fronts_correct_b ex_pop 2 [[0; 1; 2]] = true /\
+  option_map uids (sel_nsga2_std q_ops ex_pop 2) = Some [0; 2] /\
+  option_map uids (sel_nsga2_std q_ops ex_pop 7) = Some [0; 1; 2; 3].
 Proof. vm_compute. repeat split. Qed.
 
 (* non-vacuity of crowding_formula: a 4-point front, distinct per objective; the interior points
